@@ -75,6 +75,24 @@ Proof.
 Qed.
 Print Assumptions C14_same_field_same_name.
 
+(* and the message object itself: the tag held in FEDWireMessage field G and the client model's member held in
+   its field G (names compared without case) carry the same JSON name - exchanging the names of two tags of the
+   same shape keeps the set of names and the library's own round trip *)
+Definition recorded_tag_name_disagreements : list string := ["fiadditionalfitofi"%string].  (* fiAdditionalFiToFi / fiAdditionalFIToFI *)
+
+Theorem C14_same_tag_same_name : forall g js jc,
+  In (g, js) server_msg_names -> In (g, jc) client_msg_names -> NoDup (map fst client_msg_names) ->
+  ~ In g recorded_tag_name_disagreements -> js = jc.
+Proof.
+  assert (H : msg_names_agree recorded_tag_name_disagreements server_msg_names client_msg_names = true) by (vm_compute; reflexivity).
+  exact (msg_names_sound recorded_tag_name_disagreements server_msg_names client_msg_names H).
+Qed.
+Print Assumptions C14_same_tag_same_name.
+
+Example tag_names_not_vacuous :
+  nodup_strings (map fst client_msg_names) = true /\ shared_msg_names server_msg_names client_msg_names = 60.
+Proof. vm_compute. split; reflexivity. Qed.
+
 Example elementwise_not_vacuous :
   nodup_strings (map fst server_fields) = true /\ nodup_strings (map fst client_fields) = true /\
   forallb (fun ce => nodup_strings (map fst (snd ce))) client_fields = true /\ shared_fields client_fields = 180.
